@@ -94,6 +94,10 @@ M = [
  ('r2_tpremove', 'harmless', 'lib/icinga/timeperiod.cpp', 'if (segment->Get("end") < begin || segment->Get("begin") > end) {\n\t\t\tnewSegments->Add(segment);\n\t\t\tcontinue;\n\t\t}', 'if (!(segment->Get("end") >= begin && segment->Get("begin") <= end)) {\n\t\t\tnewSegments->Add(segment);\n\t\t\tcontinue;\n\t\t}', 'De Morgan'),
  ('r2_tpadd', 'semantic', 'lib/icinga/timeperiod.cpp', 'if (segment->Get("end") >= begin && segment->Get("end") <= end) {\n\t\t\t\tsegment->Set("end", end);', 'if (segment->Get("end") > begin && segment->Get("end") <= end) {\n\t\t\t\tsegment->Set("end", end);', 'adjacent segments are no longer merged'),
  ('r2_tppurge', 'semantic', 'lib/icinga/timeperiod.cpp', 'if (segment->Get("end") >= end)\n\t\t\tnewSegments->Add(segment);', 'if (segment->Get("end") > end)\n\t\t\tnewSegments->Add(segment);', 'a segment ending exactly at the purge instant is dropped'),
+ ('r2_escape', 'semantic', 'lib/base/utility.cpp', 'if (ch == \'\\\'\')\n\t\t\tresult += "\'\\\\\'";\n#endif', 'if (ch == \'\\\'\')\n\t\t\tresult += "\\\\";\n#endif', 'a quote is escaped by a backslash inside the quotes (which the shell does not honour)'),
+ ('r2_addarg', 'semantic', 'lib/icinga/macroprocessor.cpp', 'if (add_key && separator.GetType() != ValueEmpty && add_value) {', 'if (add_key && separator.GetType() != ValueEmpty) {', 'key and separator are glued to a skipped value'),
+ ('r2_addarg', 'harmless', 'lib/icinga/macroprocessor.cpp', '\t\tif (add_key)\n\t\t\targs->Add(key);\n\n\t\tif (add_value)\n\t\t\targs->Add(value);', '\t\tif (add_key) {\n\t\t\targs->Add(key);\n\t\t}\n\n\t\tif (!add_value)\n\t\t\treturn;\n\n\t\targs->Add(value);', 'early return instead of a guarded statement'),
+ ('r2_emitarr', 'semantic', 'lib/icinga/macroprocessor.cpp', 'add_key = !arg.SkipKey && arg.RepeatKey;', 'add_key = arg.RepeatKey;', 'repeat_key overrides skip_key for the later elements'),
  ('is_child_of', 'unrecognised', 'lib/remote/zone.cpp', '\tZone::Ptr azone = this;\n', '\tZone::Ptr azone = GetParent();\n', 'call outside the binding environment: degrades'),
 ]
 
